@@ -184,6 +184,8 @@ type Exec struct {
 	feasAlways bool
 	feasTag string
 	rub     []*rubCtx
+	tracked    map[int]string
+	accesses   []AccessEvent
 	lockHook   Value
 	inLockHook bool
 	fresh   map[string]int
@@ -835,4 +837,10 @@ func zeroResult(fn *ssa.Function) Value {
 		return zeroValue(res.At(0).Type())
 	}
 	return zeroValue(res)
+}
+
+// AccessEvent: a field of a tracked (shared) object was addressed while the listed locks were held.
+type AccessEvent struct {
+	Obj, Field, Func, Pos, Held, Case string
+	PC                                  *Term
 }
